@@ -9,12 +9,27 @@ package metaclient
 // Passwords are checked against a cache of successful logins. When a new catalogue snapshot arrives (it may carry a
 // changed password or a dropped user) the cache is purged against the user table of THAT snapshot, which is already
 // the current one when the purge runs: purging against the previous snapshot keeps the old password valid.
+// The purge is not optional: EVERY newer snapshot this node takes over is followed by it, before the snapshot is
+// announced to the rest of the node (a changed password changes no count and no name: "nothing about the users changed"
+// cannot be told from the sizes of the two user tables - the cached old password would go on authenticating).
 //@ func (*Client).pollForUpdates
+//@   ghost purged bool = false
+//@   call .retryUntilSnapshot
+//@     set purged = false
 //@   call .UpdateAuthCache
 //@     requires [purge_against_the_new_snapshot] c.cacheData == data && arg0 == data.Users
+//@     set purged = true
+//@   call .Update
+//@     requires [every_newer_snapshot_purges_the_password_cache] purged
 //@ func (*Client).pollForUpdatesV2
+//@   ghost purged bool = false
+//@   call .retryUntilSnapshotV2
+//@     set purged = false
 //@   call .UpdateAuthCache
 //@     requires [purge_against_the_current_snapshot] arg0 == c.cacheData.Users
+//@     set purged = true
+//@   call .Update
+//@     requires [every_newer_snapshot_purges_the_password_cache] purged
 
 // ================================================================ C11: which shard groups a query consults
 // Every shard group of the policy is examined: the list is ordered by END time, a group that starts after the query
